@@ -175,6 +175,23 @@ impl Deserializable for Context {
         // read total number of constraints
         let num_constraints = source.read_usize()?;
 
+        // enforce the limits the constructor enforces, so that sizes derived from the context
+        // cannot overflow
+        let trace_length = trace_info.length();
+        if trace_length > u32::MAX as usize
+            || trace_length.saturating_mul(options.blowup_factor()) > u32::MAX as usize
+        {
+            return Err(DeserializationError::InvalidValue(
+                "trace length or LDE domain size is too big".to_string(),
+            ));
+        }
+        if num_constraints == 0 || num_constraints > u32::MAX as usize {
+            return Err(DeserializationError::InvalidValue(format!(
+                "number of constraints must be between 1 and {}, but was {num_constraints}",
+                u32::MAX
+            )));
+        }
+
         Ok(Context {
             trace_info,
             field_modulus_bytes,
